@@ -479,6 +479,18 @@ def RoundIntSpec(result, s, rnd):
             and rounded_ok(result[1] * pow2(result[2]), s[1], n, rnd, s[0]))
 
 
+def FracSpec(result, s, prec, rnd):
+    """result == round_prec(s - floor(s)) (prec == 0: exact); nan for non-finite s.  The exact
+    fractional part of (-1)**sign * man * 2**exp with exp < 0 is (S mod 2**-exp) * 2**exp for the
+    signed mantissa S (mathematical mod: non-negative)"""
+    if is_nonfinite(s):
+        return result == fnan
+    if s[2] >= 0:
+        return result == fzero
+    r = lowbits((1 - 2 * s[0]) * s[1], -s[2])
+    return CRoundOrExact(result, 0, r, s[2], prec, rnd)
+
+
 def ToIntSpec(result, s, rnd):
     """result == round(s) as a Python int (rnd None means truncation toward zero)"""
     if s[2] >= 0:
